@@ -108,6 +108,12 @@ def add_add_op_after_concat(op, arch):
     add_op.add_input_tensor(in2)
     add_op.set_output_tensor(out)
     add_op.set_ifm_ofm_shapes()
+    if add_op.ofm_shapes[0].batch > 1:
+        # Elementwise operations only process one batch: view the batches as additional rows
+        shape = add_op.ofm_shapes[0]
+        shape = Shape4D(1, shape.batch * shape.height, shape.width, shape.depth)
+        add_op.ifm_shapes[0] = shape
+        add_op.ofm_shapes[0] = shape
     add_op.attrs["pot_scale_int16"] = False
 
     op.set_output_tensor(in1)
